@@ -1260,7 +1260,7 @@ func (r *Resolver) addSubscription(triggerID uint64, add *addSubscription) error
 			return
 		}
 
-		r.markTriggerInitialized(triggerID)
+		r.markTriggerInitialized(trig)
 
 		if r.options.Debug {
 			fmt.Printf("resolver:trigger:started:%d\n", triggerID)
@@ -1277,9 +1277,13 @@ func (r *Resolver) getTrigger(id uint64) (*trigger, bool) {
 }
 
 // markTriggerInitialized marks a trigger as initialized and reports it.
-func (r *Resolver) markTriggerInitialized(triggerID uint64) {
-	trig, ok := r.getTrigger(triggerID)
-	if !ok {
+func (r *Resolver) markTriggerInitialized(trig *trigger) {
+	// Under r.mu and only while this very trigger is still registered: the removal paths read
+	// 'initialized' under r.mu to decide whether to decrement the trigger count, so a removal
+	// between the lookup and the store would otherwise leave the count incremented forever.
+	r.mu.Lock()
+	defer r.mu.Unlock()
+	if current, ok := r.triggers[trig.id]; !ok || current != trig {
 		return
 	}
 	trig.initialized.Store(true)
